@@ -416,6 +416,9 @@ func RandomHistory(r *lib.Rng, n int, w Weights) []Op { return RandomHistoryKeys
 func RandomHistoryKeys(r *lib.Rng, n int, w Weights, keys []*PV) []Op {
 	g := NewGen(r)
 	g.Keys = keys
+	// with equal keys that are different trees in the alphabet the generator's own pool must key hashes by Equals
+	// too (or a literal taken from its pool could hold two equal keys)
+	g.ref.ByEquals = keys != nil
 	for len(g.Ops) < n {
 		g.Step(w)
 	}
